@@ -74,10 +74,21 @@ FRAGMENTS = [
     "3 Rob. 5",
     "1 Wash. 1 (1870)",
     "1 H. 2",
+    # more than MAX_MATCH_CHARS (300) of uninterrupted plain prose (no stop word, citation, section sign or line
+    # break): whatever follows it has its backward window cut
+    ("The parties briefed the question at length and the trial court took the matter under advisement for several "
+     "months before it ruled that the statute applied to the transaction and that the claim was timely because the "
+     "limitation period had been tolled while the earlier action was pending before another tribunal which later "
+     "declined to hear it on the merits as was explained in"),
     # placeholder pages in short forms (slip opinions)
     "585 U. S., at ___ (slip op., at 9)",
+    "Carpenter v. United States, 585 U.S. _ (2018)",
     "Id., at ___",
 ]
+
+LONG_PROSE = next(f for f in FRAGMENTS if f.startswith("The parties briefed"))
+ANTECEDENT_STYLE = ["Nobelman at 332, 113 S.Ct. 2106", "Twombly, supra, at 10", "Bar, supra", "Foo, 123 supra, at 6",
+                    "Twombly, 550 U.S., at 556", "Bar, 1 U.S., at 5 (quoting y)", "Johnson, 515 U. S. 304 (1995)"]
 
 HOSTILE = [
     "1 U.S. 1",
